@@ -15,6 +15,7 @@ import (
 	"path/filepath"
 	"runtime"
 	"sort"
+	"strconv"
 	"strings"
 	"sync"
 	"time"
@@ -233,7 +234,18 @@ func hashOps(ops []string) string {
 
 // CaseTimeout bounds one case on the implementation side; a case that does not return is
 // reported as a hang (the goroutine is abandoned).
-var CaseTimeout = 10 * time.Minute
+var CaseTimeout = 4 * time.Minute
+
+// HangDir, when set, receives the ops and the goroutine stacks of a case that hangs.
+var HangDir string
+
+func init() {
+	if v := os.Getenv("VERIF_CASE_TIMEOUT"); v != "" {
+		if n, err := strconv.Atoi(v); err == nil && n > 0 {
+			CaseTimeout = time.Duration(n) * time.Second
+		}
+	}
+}
 
 // Isolate, when set, is the command prefix (binary, property id) that runs one case's
 // implementation side in a child process ("<bin> <ID> implonly", case JSON on stdin, outputs
@@ -272,6 +284,9 @@ func runIsolated(c Case) []string {
 // property checked here, whatever the property's own oracle looks at.
 func crashVerdict(out []string) (Verdict, bool) {
 	for _, o := range out {
+		if strings.HasPrefix(o, "HARNESS-HANG") {
+			return Verdict{OK: false, Why: o, Signature: "hang: the implementation did not return"}, true
+		}
 		if strings.HasPrefix(o, "PROCESS-CRASH") {
 			first := strings.TrimSpace(strings.SplitN(strings.TrimPrefix(o, "PROCESS-CRASH"), "||", 2)[0])
 			if len(first) > 120 {
@@ -300,6 +315,14 @@ func safeRunImpl(p Prop, c Case) []string {
 	case out := <-done:
 		return out
 	case <-time.After(CaseTimeout):
+		if HangDir != "" {
+			// keep the case and the goroutine stacks for diagnosis
+			b, _ := json.Marshal(map[string]interface{}{"property": p.ID(), "ops": c.Ops})
+			os.WriteFile(filepath.Join(HangDir, "hang-"+hashOps(c.Ops)[:12]+".json"), b, 0o644)
+			buf := make([]byte, 4<<20)
+			n := runtime.Stack(buf, true)
+			os.WriteFile(filepath.Join(HangDir, "hang-"+hashOps(c.Ops)[:12]+".stacks"), buf[:n], 0o644)
+		}
 		return []string{"HARNESS-HANG implementation did not return within " + CaseTimeout.String()}
 	}
 }
@@ -498,12 +521,16 @@ func Run(p Prop, cfg *Config) (*Result, error) {
 		}
 		preSeen[presig]++
 		small := raw[i]
-		if cfg.ReplayFile == "" {
+		hang := len(implOut[i]) > 0 && strings.HasPrefix(implOut[i][0], "HARNESS-HANG")
+		if cfg.ReplayFile == "" && !hang { // every attempt at shrinking a hang costs a time-out
 			small = ddmin(p, cfg, raw[i], kind)
 		}
 		unprepared := small
 		small = prep(p, small)
-		si := safeRunImpl(p, small)
+		si := implOut[i]
+		if !hang {
+			si = safeRunImpl(p, small)
+		}
 		sv := oracle(p, small, si)
 		d := Divergence{Kind: kind, Ops: unprepared.Ops, ImplOut: si, Oracle: "holds", Signature: sv.Signature, FirstDiff: fd}
 		if !sv.OK {
